@@ -455,6 +455,11 @@ def run(ctx):
     why = probe_eq_sym()
     if why:
         ctx.problem('oracle', why, inputs={'suite': 'eq_sym_probe'}, failing_input_found=True)
+    why = probe_cross_class_eq()
+    ctx.suites['cross_class_equality'] = {'cases': 1, 'failure': why}
+    ctx.evaluations += 1
+    if why:
+        ctx.problem('oracle', 'property fails on the implementation: ' + why, inputs={'suite': 'cross_class_eq'}, failing_input_found=True)
     why = probe_from_dict()
     ctx.suites['from_dict_history'] = {'cases': 4, 'failure': why}
     ctx.evaluations += 4
@@ -539,6 +544,22 @@ def probe_eq_sym():
     b = Signomial(np.array([[2.], [1.]]), np.array([5., 1.]))
     if (a == b) != (b == a) or (a == b):
         return 'Signomial([[0],[1]],[0,1]) == Signomial([[2],[1]],[5,1]) gives %s / %s' % (a == b, b == a)
+    return None
+
+
+def probe_cross_class_eq():
+    """a Polynomial and a Signomial with the same exponent matrix and coefficients are different functions (x^a against exp(a . x)): == is False in both
+    directions, they are two elements of a set, and neither is `in` a list holding the other"""
+    Signomial, ssm, Polynomial, spm = sigmod()
+    alpha = np.array([[2, 1], [1, 0], [0, 0]])
+    cvec = np.array([3.0, -2.0, 1.0])
+    p, s_ = Polynomial(alpha, cvec), Signomial(alpha, cvec)
+    pt = np.array([1.0, 2.0])
+    if abs(float(p(pt)) - float(s_(pt))) < 1e-9:
+        return None
+    if (p == s_) or (s_ == p) or (s_ in [p]) or (p in [s_]):
+        return ('Polynomial(alpha, c) == Signomial(alpha, c) is %s / %s (in a list: %s / %s) although p(1, 2) = %r and s(1, 2) = %r'
+                % (p == s_, s_ == p, s_ in [p], p in [s_], float(p(pt)), float(s_(pt))))
     return None
 
 
